@@ -22,6 +22,9 @@ type Shape struct {
 	Watchers      bool
 	ChangingSets  bool // validator set changes between heights (C05)
 	MaybeChanging int  // percent of runs with changing validator sets
+	// ChangingFaults: percent of the worlds with changing validator sets that also contain faulty validators (Byzantine
+	// identities or a restart budget), never more per height than the smallest list of the run tolerates.
+	ChangingFaults int
 	ManyTxs       bool
 	Avoid         map[string]bool
 	Probes        int
@@ -84,8 +87,23 @@ func RunSafety(r sim.Src, mons []*sim.Mon, keepLog bool, sh Shape) *sim.World {
 		}
 	}
 	focus := sh.EquivFocus > 0 && !sh.NoFaults && !sh.ChangingSets && F > 0 && sim.Scramble(r.Intn("equivfocus", 100), 100) < sh.EquivFocus
+	setMode, setShift, changingFaults := 0, 0, false
+	if sh.ChangingSets {
+		setMode = r.Intn("setmode", 3)
+		setShift = 1 + r.Intn("setshift", 3)
+		if sh.ChangingFaults > 0 && !sh.NoFaults && sim.Scramble(r.Intn("changingfaults", 100), 100) < sh.ChangingFaults {
+			changingFaults = true
+			if setMode == 1 { // sizes alternate between n and n-1 (n+1 for a single validator): the smaller list bounds the faults
+				if n > 1 {
+					F = min(F, (n-2)/3)
+				} else {
+					F = 0
+				}
+			}
+		}
+	}
 	nf := 0
-	if !sh.NoFaults && !sh.ChangingSets && F > 0 {
+	if !sh.NoFaults && (!sh.ChangingSets || changingFaults) && F > 0 {
 		nf = r.Intn("faulty", F+1)
 		if focus && nf == 0 {
 			nf = 1
@@ -162,8 +180,7 @@ func RunSafety(r sim.Src, mons []*sim.Mon, keepLog bool, sh Shape) *sim.World {
 	if sh.ChangingSets {
 		// per-height rotation / resize of the validator list over identities 0..ids-1
 		ids = n + 2
-		mode := r.Intn("setmode", 3)
-		shift := 1 + r.Intn("setshift", 3)
+		mode, shift := setMode, setShift
 		valDesc = fmt.Sprintf("changing(mode=%d,shift=%d,n=%d,ids=%d)", mode, shift, n, ids)
 		validators = func(h uint32) []int {
 			k := int(h-startTip) - 1
@@ -300,6 +317,9 @@ func RunSafety(r sim.Src, mons []*sim.Mon, keepLog bool, sh Shape) *sim.World {
 	}
 	if sh.ChangingSets {
 		w.Stat("changing_sets")
+		if len(byz) > 0 || budget > 0 {
+			w.Stat("changing_sets_with_faults")
+		}
 	}
 	sim.RunAsync(w, o)
 	return w
